@@ -10,7 +10,7 @@ CL = {(4, 1): "the player runner called, bet, raised or moved all-in on the play
 
 
 def run(res, replay=None):
-    return run_actor(res, (4,), CL, (4,), replay=replay,
+    return run_actor(res, (4,), CL, (4, 9), replay=replay,
                      extra_assumptions=["timing is checked with the configured thinking time of 1 s: a call must arrive within [1.0 s - 20 ms, 1.45 s] (or within 450 ms when immediate)"])
 
 
